@@ -404,6 +404,9 @@ class TransferOps:
         All arguments are identical to the main entry method.
         """
         if os.path.islink(cache_path):
+            if TransferOps.compare_link(cache_path, pool_path, params):
+                logging.info(f"Skip upload of an already linked {cache_path}")
+                return
             raise ValueError("Cannot upload a symlink to its destination")
         else:
             TransferOps.upload_local(cache_path, pool_path, params)
